@@ -359,6 +359,57 @@ func init() {
 		w.P("/-- every other extension value is shared with the spec (`default: c.Extensions[i] = e`) -/")
 		w.P("def cloneDefaultShares : Bool := %v", defaultShares)
 
+		// ---- u_connection.go newUClientConnection (run once per connection ATTEMPT: UTransport.doDial calls it again
+		// for the connection it re-creates after Version Negotiation): does the parameter list it suppresses / shuffles /
+		// hands to PopulateFromUQUIC, or the ClientHelloSpec it hands to uTLS, alias the QUICSpec value it was given —
+		// or is it a copy made inside this function, i.e. per attempt? (value-origin analysis, see flow.go)
+		rp, err := c.Load(".")
+		if err != nil {
+			return err
+		}
+		ctor := funcLitOfVar(rp, "newUClientConnection")
+		if ctor == nil {
+			return fmt.Errorf("var newUClientConnection = func(...) not found")
+		}
+		specParam := ""
+		if ps := ctor.Type.Params.List; len(ps) > 0 {
+			last := ps[len(ps)-1]
+			if len(last.Names) == 1 && strings.Contains(render(c.Fset, last.Type), "QUICSpec") {
+				specParam = last.Names[0].Name
+			}
+		}
+		if specParam == "" {
+			return fmt.Errorf("newUClientConnection: last parameter is not the *QUICSpec")
+		}
+		rfl := newFlow(rp)
+		ctorFn := mkFnBody("newUClientConnection", ctor.Type, nil, ctor.Body)
+		onSpecValue := false
+		nSites := 0
+		for _, name := range []string{"PopulateFromUQUIC", "SuppressQUICTransportParameters", "ShuffleQUICTransportParameters", "NewUCryptoSetupClient"} {
+			sites := rfl.reach(ctorFn, name, 3)
+			if len(sites) == 0 && (name == "PopulateFromUQUIC" || name == "NewUCryptoSetupClient") {
+				return fmt.Errorf("newUClientConnection: no call of %s in it or in the same-package helpers it calls", name)
+			}
+			for _, cs := range sites {
+				if len(cs.call.Args) == 0 {
+					continue
+				}
+				nSites++
+				arg := cs.call.Args[0]
+				if name == "NewUCryptoSetupClient" {
+					arg = cs.call.Args[len(cs.call.Args)-1]
+				}
+				if rfl.rootsAt(cs, arg)[specParam] {
+					onSpecValue = true
+				}
+			}
+		}
+		w.P("/-- u_connection.go `newUClientConnection` (run once per connection attempt): the extension value it suppresses, shuffles,")
+		w.P("populates and hands to uTLS may alias the `*QUICSpec` it was given (`%s.ClientHelloSpec…`) instead of a copy made", specParam)
+		w.P("inside this function (value-origin analysis) -/")
+		_ = nSites
+		w.P("def attemptOnSpecValue : Bool := %v", onSpecValue)
+
 		// ---- internal/wire: parameter ids + PopulateFromUQUIC switch table
 		wp, err := c.Load("internal/wire")
 		if err != nil {
